@@ -922,6 +922,10 @@ def _mask(sig, num_args, hide_args, hide_kwargs,
     consumed_names = set()
 
     if hide_args:
+        if num_args > len(posargs) + len(pokargs) and not varargs:
+            raise ValueError(
+                'Signature cannot be passed {0} arguments: {1}'
+                .format(num_args, sig))
         consumed_names.update(p.name for p in posargs)
         consumed_names.update(p.name for p in pokargs)
         posargs = []
